@@ -102,10 +102,19 @@ class SigmaCorrelationConditionOperator(Enum):
 @dataclass
 class SigmaCorrelationCondition:
     op: SigmaCorrelationConditionOperator
-    count: int
+    count: int | float
     fieldref: str | list[str] | None = field(default=None)
-    percentile: int | None = field(default=None)
+    percentile: int | float | None = field(default=None)
     source: SigmaRuleLocation | None = field(default=None, compare=False)
+
+    @staticmethod
+    def _number(value: Any) -> int | float:
+        """Numeric value of a count or percentile: a number that isn't integral is kept as it is."""
+        if isinstance(value, float) and not value.is_integer():
+            if value != value or value in (float("inf"), float("-inf")):
+                raise ValueError("Not a finite number")
+            return value
+        return int(value)
 
     @classmethod
     def from_dict(
@@ -136,7 +145,7 @@ class SigmaCorrelationCondition:
             if op in d:
                 cond_op = SigmaCorrelationConditionOperator[op.upper()]
                 try:
-                    cond_count = int(d[op])
+                    cond_count = cls._number(d[op])
                 except (ValueError, TypeError, OverflowError):
                     raise sigma_exceptions.SigmaCorrelationConditionError(
                         f"'{ d[op] }' is no valid Sigma correlation condition count", source=source
@@ -151,7 +160,7 @@ class SigmaCorrelationCondition:
 
         # Condition percentile (for value_percentile correlation type)
         try:
-            cond_percentile = int(d["percentile"])
+            cond_percentile = cls._number(d["percentile"])
         except KeyError:
             cond_percentile = None
         except (ValueError, TypeError, OverflowError):
